@@ -96,6 +96,21 @@ func genCorpusItem(c *rt.C, env *psEnv, kind string, invalid bool) corpusItem {
 		txt := ref.RenderTokens(g.body(0, 0))
 		buf.WriteString(txt + "\n")
 		if rng.IntN(2) == 0 {
+			// binary data pulled out of the clear text with readstring: short
+			// strings and strings longer than any internal buffer
+			k := rng.IntN(40)
+			if rng.IntN(2) == 0 {
+				k = 400 + rng.IntN(1400)
+			}
+			data := make([]byte, k)
+			for j := range data {
+				data[j] = byte(rng.IntN(256))
+			}
+			fmt.Fprintf(&buf, "/RDc { string currentfile exch readstring pop } def /cleardata %d RDc ", k)
+			buf.Write(data)
+			buf.WriteString(" def\n")
+		}
+		if rng.IntN(2) == 0 {
 			P, _ := genEexecPlain(c, env, full)
 			plain := append(append([]byte(nil), P...), "currentfile closefile\n"...)
 			lay := layoutSection(rng, plain, bm, false)
